@@ -77,8 +77,16 @@ func (i *instruction) String(g *lookup) string {
 
 func newPos(l *lookup, fileName, funcName string, line, column int) pos {
 	// return struct{}{}
-	fileNameIdx := l.Index("#" + fileName)
-	funcNameIdx := l.Index("#" + funcName)
+	// the names have a table of their own (16-bit indices: the table of globals also holds every constant
+	// of the program); past its end a position names nothing rather than something else
+	fileNameIdx := l.names().Index(fileName)
+	funcNameIdx := l.names().Index(funcName)
+	if fileNameIdx > 0xffff {
+		fileNameIdx = 0
+	}
+	if funcNameIdx > 0xffff {
+		funcNameIdx = 0
+	}
 	// line and column have 16 bits each: saturate, so that a very long file or line cannot spill
 	// into the name indices (an error is then reported at line or column 65535)
 	if line > 0xffff {
@@ -101,8 +109,8 @@ func (p pos) info(l *lookup) (fileName, funcName string, line, column int) {
 	funcNameIdx := int((p >> 32) & 0xffff)
 	line = int((p >> 16) & 0xffff)
 	column = int(p & 0xffff)
-	fileName = l.Key(fileNameIdx)[1:]
-	funcName = l.Key(funcNameIdx)[1:]
+	fileName = l.names().Key(fileNameIdx)
+	funcName = l.names().Key(funcNameIdx)
 	return fileName, funcName, line, column
 }
 
